@@ -450,6 +450,11 @@ impl St {
                     );
                     if let Some(fc) = fc {
                         ev!("{{\"ev\":\"is_dead\",\"a\":{},\"o\":{},\"r\":{},\"weak\":true}}", self.id, t, w.is_dead(fc));
+                        if dropped {
+                            // GcWeak::resurrect on the shell of a destructed value: must answer None and change nothing
+                            let r = w.resurrect(fc);
+                            ev!("{{\"ev\":\"resurrect\",\"a\":{},\"t\":{},\"some\":{},\"via\":\"weak\"}}", self.id, t, r.is_some());
+                        }
                     }
                     if let Some(p) = up {
                         stack.push(p);
@@ -1059,8 +1064,14 @@ impl World {
                             let found = st.survey(fc, root, Some(fc));
                             if let Some(FinOp::Resurrect(model)) = &fin {
                                 if let Some((ts, p)) = st.operand(&found, model, "t") {
-                                    p.resurrect(fc);
-                                    ev!("{{\"ev\":\"resurrect\",\"a\":{},\"t\":{},\"some\":true,\"via\":\"strong\"}}", id, ts);
+                                    if ts % 2 == 0 {
+                                        p.resurrect(fc);
+                                        ev!("{{\"ev\":\"resurrect\",\"a\":{},\"t\":{},\"some\":true,\"via\":\"strong\"}}", id, ts);
+                                    } else {
+                                        // the same through GcWeak::resurrect
+                                        let r = p.downgrade().resurrect(fc);
+                                        ev!("{{\"ev\":\"resurrect\",\"a\":{},\"t\":{},\"some\":{},\"via\":\"weak\"}}", id, ts, r.is_some());
+                                    }
                                 }
                             }
                         });
